@@ -345,7 +345,16 @@ def _h_chr(a, k):
     return NotImplemented
 
 
+def _h_islice(a, k):
+    if any(type(x) is SymInt for x in a[1:]):
+        import itertools
+        return itertools.islice(a[0], *[concretize(x) for x in a[1:]])
+    return NotImplemented
+
+
+import itertools as _it
 _TYPE_HOOKS = {
+    _it.islice: _h_islice,
     int: _h_int, bool: _h_bool, bytes: _h_bytes, bytearray: _h_bytearray,
     io.BytesIO: _h_bytesio, type: _h_type, range: _h_range, str: _h_str,
     float: _h_float, memoryview: _h_memoryview,
